@@ -45,6 +45,8 @@ _MKEV = "P:puml_graph.create_event_node(P:event_node.event_type," \
         "P:event_node.uid)"
 _LNODE = "phi(P:previous_node_class|P:previous_node_class.outgoing_logic[0])"
 _PAIR = f"P:puml_graph.create_operator_node_pair({_LNODE}.get_operator_type())"
+_ROT = "P:logic_list[USub(1)].rotate_path(P:previous_node_class," \
+       "P:previous_puml_node)"
 _NO_LONELY = ("cmp", "P:logic_block_holder.lonely_merge_index", "Is", "None",
               "1")
 _LB_UNDECIDED = ("any", (
@@ -188,6 +190,17 @@ TABLE: dict[str, list[tuple]] = {
         ("and the walk continues with the block's first path", "ret", "", "",
          ("handle_logic_list_next_path(P:puml_graph,P:logic_list,"
           "P:previous_node_class)",), [], [], ""),
+    ],
+    "handle_rotate_path": [
+        ("after a rotation a path is (re)started only when it has not been "
+         "walked yet: its diagram node is still the block's START node "
+         "itself (a walked path can sit on the END operator of a nested "
+         "block - also an operator node)", "store", "",
+         "P:logic_list[USub(1)].current_path_puml_node",
+         (f"handle_logic_list_next_path(P:puml_graph,P:logic_list,{_ROT}[1])"
+          "[0]",),
+         [("cmp", f"{_ROT}[0]", "Eq", "P:logic_list[USub(1)].start_node",
+           "1")], [], ""),
     ],
     # ---- is the node the walk arrived at a merge node of the open block?
     "check_is_merge_node_for_logic_block": [
@@ -387,5 +400,33 @@ PUML_TABLE: dict[str, list[tuple]] = {
          "sub_graph", ("P:sub_graph",),
          [("cmp", "P:ref", "In", "P:self.parent_graph_nodes_to_node_ref",
            "1")], [], ""),
+    ],
+}
+
+
+# ---- loop bodies: kill paths and break points
+_SG = "P:sub_graph_node.sub_graph"
+KILL_TABLE: dict[str, list[tuple]] = {
+    "get_node_to_node_map_from_edges": [
+        ("every kill edge is recorded under its source", "call", "add",
+         "{}[each(P:edges)[0]]", ("each(P:edges)[1]",), [], [], ""),
+    ],
+    "add_loop_kill_paths_for_nodes": [
+        ("every node of the body that is the source of kill edges marks the "
+         "kill paths of its logic from the targets of those edges", "call",
+         "update_loop_kill_paths_from_given_leaf_nodes",
+         "each(P:node_class_graph.nodes).outgoing_logic[0]",
+         ("P:node_to_node_kill_map[each(P:node_class_graph.nodes).uid]",),
+         [("cmp", "each(P:node_class_graph.nodes).uid", "In",
+           "P:node_to_node_kill_map", "1"),
+          ("cmp", "1", "Eq", "len(each(P:node_class_graph.nodes)."
+           "outgoing_logic)", "1")], [], ""),
+    ],
+    "update_sub_graph_node_break_points": [
+        ("every node of the body whose uid is a break uid of the loop is "
+         "marked BREAK", "call", "update_event_types",
+         f"each({_SG}.nodes)", ("PUMLEvent.BREAK",),
+         [("cmp", f"each({_SG}.nodes).uid", "In",
+           "P:sub_graph_node.break_uids", "1")], [], ""),
     ],
 }
